@@ -392,4 +392,195 @@ example : ∃ r c, decode (fun _ => "") (fun l => if l = 0x409 then "en-US" else
     (fun _ => 0) 3 8 (by omega) (by omega) (by decide)
   exact ⟨r, c, h, by omega, by omega⟩
 
+/-! ## agreement with the value-level model of C14 (`SfntV.Names.nameDecodeWith`) -/
+
+/-- the bytes as numbers (the C14 models work on `List Nat`) -/
+abbrev nat (b : Bytes) : List Nat := b.map UInt8.toNat
+
+/-- forget the cost; C14 has one failure value (`errMalformedNames`) -/
+def toOpt : Outcome (α × Cost) → Option α
+  | .ok (a, _) => some a
+  | _ => none
+
+theorem nat_length (b : Bytes) : (nat b).length = b.length := List.length_map _
+
+theorem w16_get (site : String) (data : Bytes) (i : Nat) (h : i + 1 < data.length) :
+    w16 site data i = .ok (data[i].toNat * 256 + data[i + 1].toNat) := by
+  unfold w16
+  rw [idx_ok _ data i (by omega), ok_bind, idx_ok _ data (i + 1) h, ok_bind]
+  rfl
+
+theorem nat_getD (data : Bytes) (i : Nat) (h : i < data.length) : (nat data).getD i 0 = data[i].toNat := by
+  unfold nat
+  rw [List.getD_eq_getElem?_getD, List.getElem?_map, List.getElem?_eq_getElem h]
+  rfl
+
+theorem u16words_eq (buf : Bytes) : ∀ (k i : Nat), (buf.length - i) / 2 = k → i ≤ buf.length →
+    u16words buf k i = .ok (Names.wordsOfBytes (nat (buf.drop i)))
+  | 0, i, hk, hi => by
+    have hl : (buf.drop i).length ≤ 1 := by rw [List.length_drop]; omega
+    unfold u16words
+    match hd : buf.drop i, hl with
+    | [], _ => rfl
+    | [x], _ => rfl
+  | k+1, i, hk, hi => by
+    unfold u16words
+    rw [idx_ok _ buf i (by omega), ok_bind, idx_ok _ buf (i + 1) (by omega), ok_bind,
+      u16words_eq buf k (i + 2) (by omega) (by omega), ok_bind,
+      List.drop_eq_getElem_cons (by omega : i < buf.length),
+      List.drop_eq_getElem_cons (by omega : i + 1 < buf.length)]
+    rfl
+
+theorem utf16Decode_eq (buf : Bytes) :
+    ∃ c, utf16Decode buf = .ok (Names.utf16Decode (nat buf), c) := by
+  unfold utf16Decode Names.utf16Decode
+  rw [u16words_eq buf (buf.length / 2) 0 (by omega) (by omega), ok_bind, List.drop_zero]
+  exact ⟨_, rfl⟩
+
+theorem drop12 (l : List Nat) (p : Nat) (h : p + 12 ≤ l.length) :
+    l.drop p = l[p] :: l[p+1] :: l[p+2] :: l[p+3] :: l[p+4] :: l[p+5] :: l[p+6] :: l[p+7] :: l[p+8]
+      :: l[p+9] :: l[p+10] :: l[p+11] :: l.drop (p + 12) := by
+  rw [List.drop_eq_getElem_cons (by omega : p < l.length),
+    List.drop_eq_getElem_cons (by omega : p + 1 < l.length),
+    List.drop_eq_getElem_cons (by omega : p + 1 + 1 < l.length),
+    List.drop_eq_getElem_cons (by omega : p + 1 + 1 + 1 < l.length),
+    List.drop_eq_getElem_cons (by omega : p + 1 + 1 + 1 + 1 < l.length),
+    List.drop_eq_getElem_cons (by omega : p + 1 + 1 + 1 + 1 + 1 < l.length),
+    List.drop_eq_getElem_cons (by omega : p + 1 + 1 + 1 + 1 + 1 + 1 < l.length),
+    List.drop_eq_getElem_cons (by omega : p + 1 + 1 + 1 + 1 + 1 + 1 + 1 < l.length),
+    List.drop_eq_getElem_cons (by omega : p + 1 + 1 + 1 + 1 + 1 + 1 + 1 + 1 < l.length),
+    List.drop_eq_getElem_cons (by omega : p + 1 + 1 + 1 + 1 + 1 + 1 + 1 + 1 + 1 < l.length),
+    List.drop_eq_getElem_cons (by omega : p + 1 + 1 + 1 + 1 + 1 + 1 + 1 + 1 + 1 + 1 < l.length),
+    List.drop_eq_getElem_cons (by omega : p + 1 + 1 + 1 + 1 + 1 + 1 + 1 + 1 + 1 + 1 + 1 < l.length)]
+
+theorem nat_get (data : Bytes) (i : Nat) (h : i < (nat data).length) :
+    (nat data)[i] = (data[i]'(by rw [nat_length] at h; exact h)).toNat := by
+  exact List.getElem_map ..
+
+set_option maxRecDepth 16384 in
+/-- the record loop against `decodeLoop ∘ parseRecs` -/
+theorem recLoop_opt (apple ms : List (Nat × String)) (mac : UInt8 → Nat)
+    (hmac : ∀ c, mac c = Names.fixRune (Names.macDecodeOne Gen.macDec c.toNat)) (data : Bytes) (so : Nat) :
+    ∀ (fuel i : Nat) (acc : List Names.Entry) (c : Cost), 6 + 12 * (i + fuel) ≤ data.length →
+      toOpt (recLoop (Names.langGet apple) (Names.langGet ms) mac data so fuel i acc c)
+        = Names.decodeLoop apple ms (nat data) so (Names.parseRecs fuel ((nat data).drop (6 + i * 12))) acc
+  | 0, i, acc, c, _ => by
+    unfold recLoop Names.parseRecs
+    cases (nat data).drop (6 + i * 12) <;> rfl
+  | fuel+1, i, acc, c, h => by
+    have hl := nat_length data
+    have ih := fun acc c => recLoop_opt apple ms mac hmac data so fuel (i + 1) acc c (by omega)
+    rw [show 6 + (i + 1) * 12 = 6 + i * 12 + 12 by omega] at ih
+    rw [drop12 (nat data) (6 + i * 12) (by omega)]
+    unfold recLoop
+    dsimp only
+    rw [w16_get _ data (6 + i * 12) (by omega), ok_bind, w16_get _ data (6 + i * 12 + 2) (by omega), ok_bind,
+      w16_get _ data (6 + i * 12 + 4) (by omega), ok_bind, w16_get _ data (6 + i * 12 + 6) (by omega), ok_bind,
+      w16_get _ data (6 + i * 12 + 8) (by omega), ok_bind, w16_get _ data (6 + i * 12 + 10) (by omega), ok_bind]
+    simp only [Names.parseRecs, nat_get]
+    unfold Names.decodeLoop
+    generalize data[6 + i * 12].toNat * 256 + data[6 + i * 12 + 1].toNat = v1
+    generalize data[6 + i * 12 + 2].toNat * 256 + data[6 + i * 12 + 2 + 1].toNat = v2
+    generalize data[6 + i * 12 + 4].toNat * 256 + data[6 + i * 12 + 4 + 1].toNat = v3
+    generalize data[6 + i * 12 + 6].toNat * 256 + data[6 + i * 12 + 6 + 1].toNat = v4
+    generalize data[6 + i * 12 + 8].toNat * 256 + data[6 + i * 12 + 8 + 1].toNat = v5
+    generalize data[6 + i * 12 + 10].toNat * 256 + data[6 + i * 12 + 10 + 1].toNat = v6
+    unfold Names.decodeRec
+    dsimp only
+    generalize (if v1 = 1 then Names.langGet apple v3 else if v1 = 3 then Names.langGet ms v3 else "") = key
+    by_cases hk : key = ""
+    · rw [if_pos hk, if_pos hk]
+      exact ih _ _
+    rw [if_neg hk, if_neg hk]
+    by_cases hb : so + v6 + v5 > data.length
+    · rw [if_pos hb, if_pos (by rw [hl]; exact hb)]
+      rfl
+    rw [if_neg hb, if_neg (by rw [hl]; exact hb), slice_ok _ _ _ _ ⟨by omega, by omega⟩, ok_bind,
+      show so + v6 + v5 - (so + v6) = v5 by omega]
+    have hbytes : List.take v5 (List.drop (so + v6) (nat data)) = nat (List.take v5 (List.drop (so + v6) data)) := by
+      unfold nat
+      rw [List.map_take, List.map_drop]
+    rw [hbytes]
+    generalize List.take v5 (List.drop (so + v6) data) = nb
+    by_cases hu : v1 = 3 ∧ (v2 = 1 ∨ v2 = 10)
+    · obtain ⟨c0, hc0⟩ := utf16Decode_eq nb
+      rw [if_pos hu, if_pos hu, hc0, ok_bind, pure_bind']
+      dsimp only
+      split
+      · exact ih _ _
+      · exact ih _ _
+    rw [if_neg hu, if_neg hu]
+    by_cases hm : v1 = 1 ∧ v2 = 0
+    · rw [if_pos hm, if_pos hm, pure_bind']
+      have hmd : (macDecode mac nb).1 = Names.macDecode (nat nb) := by
+        unfold macDecode Names.macDecode Names.macDecodeWith nat
+        rw [List.map_map]
+        exact List.map_congr_left (fun c _ => hmac c)
+      dsimp only
+      rw [hmd]
+      split
+      · exact ih _ _
+      · exact ih _ _
+    · rw [if_neg hm, if_neg hm, pure_bind']
+      dsimp only
+      rw [if_pos rfl, if_pos rfl]
+      exact ih _ _
+
+set_option maxRecDepth 16384 in
+/-- Erasing the panic sites and the cost counters from the checked-index model of `name.Decode`
+gives the value-level model of C14 on every input (same `set` calls in the same order, or the one
+error), for any language tables and the Mac Roman table of C14. -/
+theorem decode_erase (apple ms : List (Nat × String)) (mac : UInt8 → Nat)
+    (hmac : ∀ c, mac c = Names.fixRune (Names.macDecodeOne Gen.macDec c.toNat)) (data : Bytes) :
+    toOpt (decode (Names.langGet apple) (Names.langGet ms) mac data)
+      = Names.nameDecodeWith apple ms (nat data) := by
+  unfold decode Names.nameDecodeWith
+  simp only [List.length_map]
+  by_cases h6 : data.length < 6
+  · simp only [if_pos h6]
+    rfl
+  simp only [if_neg h6]
+  rw [w16_get _ data 0 (by omega), ok_bind,
+    w16_get _ data 2 (by omega), ok_bind, w16_get _ data 4 (by omega), ok_bind,
+    nat_getD data 0 (by omega), nat_getD data 1 (by omega), nat_getD data 2 (by omega),
+    nat_getD data 3 (by omega), nat_getD data 4 (by omega), nat_getD data 5 (by omega)]
+  generalize data[0].toNat * 256 + data[0 + 1].toNat = version
+  generalize data[2].toNat * 256 + data[2 + 1].toNat = numRec
+  generalize data[4].toNat * 256 + data[4 + 1].toNat = so
+  by_cases hv : version > 1
+  · simp only [if_pos hv]
+    rfl
+  simp only [if_neg hv]
+  by_cases he : 6 + 12 * numRec > data.length
+  · simp only [if_pos he]
+    rfl
+  simp only [if_neg he]
+  by_cases hv0 : version > 0
+  · by_cases he2 : 6 + 12 * numRec + 2 > data.length
+    · simp only [if_pos hv0, if_pos he2, if_pos (And.intro hv0 he2)]
+      rfl
+    simp only [if_pos hv0, if_neg he2, if_neg (fun h : version > 0 ∧ 6 + 12 * numRec + 2 > data.length => he2 h.2)]
+    rw [w16_get _ data (6 + 12 * numRec) (by omega), ok_bind, pure_bind',
+      nat_getD data _ (by omega), nat_getD data _ (by omega)]
+    dsimp only
+    split
+    · rfl
+    · rw [recLoop_opt apple ms mac hmac data so numRec 0 [] _ (by omega)]
+  · simp only [if_neg hv0, if_neg (fun h : version > 0 ∧ 6 + 12 * numRec + 2 > data.length => hv0 h.1), pure_bind']
+    split
+    · rfl
+    · rw [recLoop_opt apple ms mac hmac data so numRec 0 [] _ (by omega)]
+
+/-- the instance the driver runs: the regenerated language tables and Mac Roman table -/
+theorem decode_erase_gen (data : Bytes) :
+    toOpt (decode (Names.langGet Gen.appleBCP) (Names.langGet Gen.msBCP)
+      (fun c => Names.fixRune (Names.macDecodeByte c.toNat)) data) = Names.nameDecode (nat data) :=
+  decode_erase Gen.appleBCP Gen.msBCP _ (fun _ => rfl) data
+
+/-- `name.utf16Decode`: the checked-index model computes the C14 function on every byte string -/
+theorem utf16Decode_erase (buf : Bytes) : toOpt (utf16Decode buf) = some (Names.utf16Decode (nat buf)) := by
+  obtain ⟨c, h⟩ := utf16Decode_eq buf
+  rw [h]
+  rfl
+
 end SfntV.Total.NameCff
